@@ -19,6 +19,7 @@ import (
 //	21 Filter2DMapCollection c a coll                  22 PartitionMap c a ms  23 MapCollection c m
 //	24 MapUnique[int,float64] m   25 Invert[int,float64] m   26 MapContains[int,float64] v m
 //	   (24-26: a wire value v is passed as the float64 v/4 and results are multiplied by 4 - exact; no NaN)
+//	101-123: helper (fn - 100) at map[float64]float64 with NaN among keys and values: c14nan.go
 //
 // value predicates (c,a): 0 true, 1 false, 2 even, 3 (< a), 4 (== a), 5 (> a)
 // key/value predicates:   0 true, 1 false, 2 k<a, 3 v==a, 4 k+v even, 5 k==a
@@ -255,7 +256,8 @@ func mapsFor(flats [][]int, rep int) []map[int]int {
 }
 
 func c14Open(fn int) bool {
-	return fn == 9 || fn == 10 || fn == 12 || fn == 13 || fn == 15 || fn == 24 || fn == 25
+	return fn == 9 || fn == 10 || fn == 12 || fn == 13 || fn == 15 || fn == 24 || fn == 25 ||
+		fn == 109 || fn == 110 || fn == 111 || fn == 112 || fn == 113 || fn == 115
 }
 
 // c14Once runs the helper once, with maps built in the rep-th insertion order.
@@ -264,6 +266,10 @@ func c14Once(in []int64, rep int) []int64 {
 	fn := r.Int()
 	var res []int64
 	panicked := try(func() {
+		if fn > 100 { // stream `nan`: the helpers at map[float64]float64 (c14nan.go)
+			res = c14OnceNaN(fn, r, rep)
+			return
+		}
 		switch fn {
 		case 1:
 			res = (&W{}).Ints(sortedCopy(gogu.Keys(buildMap(r.Ints(), rep)))).Out()
@@ -427,6 +433,16 @@ func describeC14(in []int64) string {
 	if len(in) == 0 {
 		return ""
 	}
+	if in[0] > 100 {
+		args := make([]string, len(in)-1)
+		for i, x := range in[1:] {
+			args[i] = fmt.Sprint(x)
+			if x == c14NaNCode {
+				args[i] = "NaN"
+			}
+		}
+		return fmt.Sprintf("%s[float64,float64]%v  (maps as k v k v ..., lists length-prefixed; callback codes in harness/c14nan.go)", c14Names[int(in[0])-100], args)
+	}
 	return fmt.Sprintf("%s%v  (maps as k v k v ..., lists length-prefixed; callback codes in harness/c14.go)", c14Names[int(in[0])], in[1:])
 }
 
@@ -459,7 +475,11 @@ func allMaps(nk int, vals []int, maxEntries int) [][]int {
 
 func genC14(g *Gen) {
 	emit := func(stream string, nt bool, w *W) {
-		g.Count(c14Names[int(w.w[0])])
+		if w.w[0] > 100 {
+			g.Count(c14Names[int(w.w[0])-100] + "[float64,float64]")
+		} else {
+			g.Count(c14Names[int(w.w[0])])
+		}
 		g.Case(stream, nt, w.Out())
 	}
 	vpreds := [][2]int{{0, 0}, {1, 0}, {2, 0}, {3, 1}, {3, 2}, {4, 0}, {4, 2}, {5, 0}}
@@ -791,9 +811,11 @@ func genC14(g *Gen) {
 			emit("large", true, (&W{}).Int(19).Ints(s1).Ints(s2[:n-1]))
 		}
 	}
+	// --- nan stream: every helper at map[float64]float64 with NaN among keys and values (c14nan.go) ---
+	genC14NaN(g, emit)
 }
 
 func init() {
 	register(&Prop{ID: "C14", Exec: execC14, Gen: genC14, Describe: describeC14,
-		Rule: "exhaustive (both tiers at the bound of the quantifier): every map with <= 4 entries over keys 0..3 x values {0,1,2} (thorough: <= 5 entries over keys 0..4) x (Keys, Values, Invert, MapUnique; Pick/Omit with every key list of length <= 3 over the keys and one key that is never present, duplicates included; PickBy/OmitBy x 8 key-value predicates; FilterMap/Find/FindKey/FindByKey/MapEvery/MapSome x 8 value predicates; MapValues/MapCollection x 5 functions; MapKeys x 6 key functions incl. colliding ones; MapContains x 5 probes; MapUnique, Invert and MapContains also at float64 values v/4, no NaN); every list of <= 3 (thorough 4) maps from a pool of 8 (incl. the empty map, passed as a nil map on odd repetitions) for Pluck/FilterMapCollection/PartitionMap and of <= 3 (4) maps-of-maps from a pool of 6 for Filter2DMapCollection; all pairs of slices of length <= 3 over {0,1,2} for SliceToMap (unequal lengths included). extreme: maps with <= 2 (a few with 3-5) entries whose keys are in {MaxInt, MinInt, 0, -1, 2^32, +-2^62, +-2^31, MaxInt-1, MinInt+1} and values in {MaxInt, MinInt, 1, 0} through every helper, with extreme key lists / predicate arguments, lists of maps and SliceToMap with extreme keys. large: maps with 50..500 entries (keys up to +-2^40) through every helper, key lists of 50..200 keys, lists of 50..300 maps, SliceToMap on 100..2000 positions over 51 keys. random: seeded maps with up to 12 entries. Each call is repeated 8 times (24 for the helpers that leave a choice open) on maps built in different insertion orders; distinct canonical outcomes are recorded. non-trivial = map with >= 2 entries / list of >= 2 maps or containing a map with >= 2 entries / key slice of length >= 2; distinct = distinct wire input"})
+		Rule: "exhaustive (both tiers at the bound of the quantifier): every map with <= 4 entries over keys 0..3 x values {0,1,2} (thorough: <= 5 entries over keys 0..4) x (Keys, Values, Invert, MapUnique; Pick/Omit with every key list of length <= 3 over the keys and one key that is never present, duplicates included; PickBy/OmitBy x 8 key-value predicates; FilterMap/Find/FindKey/FindByKey/MapEvery/MapSome x 8 value predicates; MapValues/MapCollection x 5 functions; MapKeys x 6 key functions incl. colliding ones; MapContains x 5 probes; MapUnique, Invert and MapContains also at float64 values v/4); every list of <= 3 (thorough 4) maps from a pool of 8 (incl. the empty map, passed as a nil map on odd repetitions) for Pluck/FilterMapCollection/PartitionMap and of <= 3 (4) maps-of-maps from a pool of 6 for Filter2DMapCollection; all pairs of slices of length <= 3 over {0,1,2} for SliceToMap (unequal lengths included). extreme: maps with <= 2 (a few with 3-5) entries whose keys are in {MaxInt, MinInt, 0, -1, 2^32, +-2^62, +-2^31, MaxInt-1, MinInt+1} and values in {MaxInt, MinInt, 1, 0} through every helper, with extreme key lists / predicate arguments, lists of maps and SliceToMap with extreme keys. large: maps with 50..500 entries (keys up to +-2^40) through every helper, key lists of 50..200 keys, lists of 50..300 maps, SliceToMap on 100..2000 positions over 51 keys. random: seeded maps with up to 12 entries. nan (exhaustive): every helper at map[float64]float64, float codes on the wire (harness/c14nan.go) - every map with ordinary keys 0..2 (thorough 0..3), each absent or holding a value from {NaN, 0, 1}, plus a multiset of <= 2 entries under NaN with values from {NaN, 0, 1}, <= 4 (5) entries in all, x (Keys, Values, Invert, MapUnique; Pick/Omit with every key list of length <= 2 over {NaN, the keys, one absent key}; PickBy/OmitBy x 11 key-value predicates incl. k != k, v != v, == NaN; FilterMap/Find/FindKey/FindByKey/MapEvery/MapSome x 9 value predicates incl. == NaN; MapValues/MapCollection x 5 functions; MapKeys x 7 key functions incl. const NaN; MapContains x 5 probes incl. NaN); every list of <= 3 (4) maps from a pool of 7 with NaN keys and values for Pluck (keys NaN, 0, 1, 2) / FilterMapCollection / PartitionMap; <= 2 (3) maps of maps from a pool of 5 with NaN outer and inner keys for Filter2DMapCollection; all pairs of slices of length <= 3 over {NaN, 0, 1} for SliceToMap. nan-random: seeded float maps with up to 12 entries (a fifth of the entries under NaN, a quarter of the values NaN) through every helper, lists of up to 5 such maps; nan-large: maps with 40..300 entries. non-trivial in these streams = a NaN in the input and >= 2 entries / maps. Each call is repeated 8 times (24 for the helpers that leave a choice open) on maps built in different insertion orders; distinct canonical outcomes are recorded. non-trivial = map with >= 2 entries / list of >= 2 maps or containing a map with >= 2 entries / key slice of length >= 2; distinct = distinct wire input"})
 }
